@@ -1185,6 +1185,7 @@ int main(int argc, const char** argv) {
 	CommonOptionsParser& OP = Expected.get();
 	ClangTool Tool(OP.getCompilations(), OP.getSourcePathList());
 	std::vector<std::unique_ptr<llvm::MemoryBuffer>> keep;
+	std::vector<std::unique_ptr<std::string>> keepNames; // mapVirtualFile stores StringRefs: keep the paths alive
 	for (const std::string& ov : OptOverlay) {
 		size_t eq = ov.find('=');
 		if (eq == std::string::npos)
@@ -1196,7 +1197,8 @@ int main(int argc, const char** argv) {
 			return 2;
 		}
 		keep.push_back(std::move(*buf));
-		Tool.mapVirtualFile(orig, keep.back()->getBuffer());
+		keepNames.push_back(std::make_unique<std::string>(orig));
+		Tool.mapVirtualFile(*keepNames.back(), keep.back()->getBuffer());
 	}
 	int rc = Tool.run(newFrontendActionFactory<Action>().get());
 	return rc == 0 ? 0 : 2;
